@@ -5,6 +5,7 @@ import (
 	"crypto/sha256"
 	"encoding/binary"
 	"encoding/hex"
+	"errors"
 	"fmt"
 	"io"
 	mrand "math/rand/v2"
@@ -39,7 +40,14 @@ type BSched struct {
 	Buggify map[string]bool
 	Knobs   map[string]int
 	fallbk  io.Reader
+	// entropy fault: reads number FailFrom .. FailFrom+FailCount-1 (counted over all tasks, from 1) return
+	// an error; FailCount 0 with FailFrom > 0 means every read from FailFrom on
+	FailFrom, FailCount int
+	reads, Failed       int
 }
+
+// ErrEntropy is what a failing simulated entropy source returns.
+var ErrEntropy = errors.New("simulated entropy source failure")
 
 type btask struct {
 	id     int // assigned when the scheduler first sees the task
@@ -122,6 +130,16 @@ func (s *BSched) Read(p []byte) (int, error) {
 		return s.fallbk.Read(p)
 	}
 	s.Yield("crypto/rand.Read")
+	s.mu.Lock()
+	s.reads++
+	fail := s.FailFrom > 0 && s.reads >= s.FailFrom && (s.FailCount == 0 || s.reads < s.FailFrom+s.FailCount)
+	if fail {
+		s.Failed++
+	}
+	s.mu.Unlock()
+	if fail {
+		return 0, ErrEntropy
+	}
 	t.rnd.Read(p)
 	return len(p), nil
 }
